@@ -233,6 +233,10 @@ struct RecInner {
     yield_on: bool,
     /// (site, microseconds): a deterministic delay at one yield site (independent of `yield_on`)
     site_delay: Option<(u32, u64)>,
+    /// (file class, microseconds): the first pool / direct write to a file of that class is held back that long
+    /// inside the hook (its Begin event is recorded first), simulating one slow in-flight write
+    hold: Option<(&'static str, u64)>,
+    hold_used: bool,
 }
 
 /// The process-global hook implementation.
@@ -281,6 +285,30 @@ impl Recorder {
     }
     pub fn fired(&self) -> Vec<(usize, String, &'static str)> {
         self.lock().fired.clone()
+    }
+    /// Hold back the first write to a file of class `class` for `micros` (None = off).
+    pub fn set_hold(&self, h: Option<(&'static str, u64)>) {
+        let mut g = self.lock();
+        g.hold = h;
+        g.hold_used = false;
+    }
+    /// Number of recorded MUTATING operations (not fsyncs) that have begun but not ended (since the last `watch` / `take`).
+    pub fn in_flight_events(&self) -> usize {
+        let g = self.lock();
+        let mut open: BTreeSet<u64> = BTreeSet::new();
+        for e in &g.events {
+            match e {
+                // fsyncs write nothing: a late fsync of the old handle is not a writer
+                Ev::Begin { kind: Kind::Fsync | Kind::FsyncDir, .. } => {}
+                Ev::Begin { id, .. } => {
+                    open.insert(*id);
+                }
+                Ev::End { id, .. } => {
+                    open.remove(id);
+                }
+            }
+        }
+        open.len()
     }
     /// Delay every passage through yield site `site` by `micros` (None = off).
     pub fn set_site_delay(&self, d: Option<(u32, u64)>) {
@@ -371,7 +399,18 @@ impl Hook for Recorder {
         }
         let id = g.next_id;
         g.next_id += 1;
+        let hold_us = match (&kind, g.hold) {
+            (Kind::Write { .. }, Some((class, us))) if !g.hold_used && file_class(&file) == class => {
+                g.hold_used = true;
+                Some(us)
+            }
+            _ => None,
+        };
         g.events.push(Ev::Begin { id, file, kind });
+        drop(g);
+        if let Some(us) = hold_us {
+            std::thread::sleep(std::time::Duration::from_micros(us));
+        }
         Ok(id)
     }
     fn after(&self, token: u64, ok: bool) {
